@@ -145,7 +145,7 @@ struct OwnEngine : Engine {
         int nops = (int)cfg.range(5, tier == "thorough" ? 60 : 30);
         auto add_new = [&]() { if (cfg.chance(0.75)) { int dlt = dlts[cfg.below(7)]; gen::Frame f = gen::frame_for(wl, dlt); KV k; k.set("op", "new").set("dlt", dlt).set("f", f.bytes); p.steps.push_back(k.line()); } else { KV k; k.set("op", "newdef").set("cls", (int64_t)cfg.below(12)); p.steps.push_back(k.line()); } };
         add_new(); add_new();
-        static const char* ops[] = { "new", "clone", "copyctor", "clone_inner", "copy_inner", "copyassign", "copyassign", "movector", "moveassign", "div", "diveq", "inner_ptr", "inner_ref", "release", "reattach", "delete", "mutate", "mutate",
+        static const char* ops[] = { "new", "clone", "copyctor", "clone_inner", "copy_inner", "move_inner", "copyassign", "copyassign", "movector", "moveassign", "div", "diveq", "inner_ptr", "inner_ref", "release", "reattach", "delete", "mutate", "mutate",
                                      "pk_wrap", "pk_clonewrap", "pk_copy", "pk_assign", "pk_assign", "pk_move", "pk_moveassign", "pk_release", "pk_diveq", "optassign", "selfassign", "stack", "tcpstream", "cacher", "reasm" };
         for (int i = 0; i < nops; ++i) {
             std::string o = ops[cfg.below(sizeof(ops) / sizeof(ops[0]))];
@@ -209,6 +209,14 @@ struct OwnEngine : Engine {
                     // a copy of a NON-ROOT layer kept as a user-owned root: it must be a root of its own (no parent link into the source tree) and equal to that sub-chain
                     std::vector<int> cur_types = types_of(roots[a].p); size_t n = cur_types.size(); if (n < 2) skipped = true; else { size_t kpos = 1 + (size_t)x % (n - 1); PDU* q0 = roots[a].p; for (size_t i = 0; i < kpos; ++i) q0 = q0->inner_pdu(); PDU* q = 0; if (op == "clone_inner") SUT(q = q0->clone()); else SUT(q = typed_copy(q0)); ledger::fail_countdown = 0;
                         if (!q) skipped = true; else { Root& r = add_root(q); st.inc("probe.copy_of_non_root_layer"); std::vector<int> want(cur_types.begin() + kpos, cur_types.end()); if (r.types != want) result = Verdict::bad("own:copy-not-equal", "copy of an inner layer does not have the layers of that sub-chain", idx); if (q->parent_pdu()) result = Verdict::bad("own:copy-keeps-foreign-parent-link", "a copy of an inner layer is user-owned but its parent link designates the layer that owns the original", idx); nontrivial = true; } } }
+                else if (op == "move_inner") {
+                    // a user-owned object move-constructed from a NON-ROOT layer: it takes that layer's children, is a root of its own (no parent link), and the source layer stays where it is, childless
+                    std::vector<int> cur_types = types_of(roots[a].p); size_t n = cur_types.size(); if (n < 2) skipped = true; else { size_t kpos = 1 + (size_t)x % (n - 1); PDU* q0 = roots[a].p; for (size_t i = 0; i < kpos; ++i) q0 = q0->inner_pdu(); PDU* q = 0; touched_r.insert(a); SUT(q = typed_move(q0)); ledger::fail_countdown = 0;
+                        if (!q) skipped = true; else { Root& r = add_root(q); st.inc("probe.move_of_non_root_layer"); std::vector<int> want(cur_types.begin() + kpos, cur_types.end()); roots[a].known = false; roots[a].bytes_known = false; record(roots[a]); roots[a].bytes_known = false;
+                            if (r.types != want) result = Verdict::bad("own:move-not-equal", "object move-constructed from an inner layer does not hold that layer's sub-chain", idx);
+                            if (q->parent_pdu()) result = Verdict::bad("own:move-keeps-foreign-parent-link", "an object move-constructed from an inner layer is user-owned but its parent link designates the layer that owns the source", idx);
+                            if (q0->inner_pdu()) result = Verdict::bad("own:moved-from-keeps-child", "moved-from inner layer still has a child", idx);
+                            if (roots[a].types.size() != kpos + 1) result = Verdict::bad("own:forest-broken", fmt("after moving from the layer at depth %zu the source tree has %zu layers, expected %zu", kpos, roots[a].types.size(), kpos + 1), idx); nontrivial = true; } } }
                 else if (op == "copyctor") { PDU* q = 0; SUT(q = typed_copy(roots[a].p)); ledger::fail_countdown = 0; if (!q) skipped = true; else { Root& r = add_root(q); if (roots[a].known && (r.types != roots[a].types || (roots[a].bytes_known && r.bytes_known && r.bytes != roots[a].bytes))) result = Verdict::bad("own:copy-not-equal", "copy-constructed object differs from its source", idx); if (roots[a].types.size() > 1) nontrivial = true; } }
                 else if (op == "copyassign" || op == "selfassign") {
                     if (op == "selfassign") b = a;
